@@ -256,9 +256,14 @@ func (f *IRFunc) Gallina(remapIn map[int]int) string {
 				r = "(Some " + refs(in.Refs) + ")"
 			}
 			aux := append([]int(nil), in.Aux...)
-			if in.Kind == "BinOp" || in.Kind == "UnOp" {
-				if len(aux) == 1 {
-					aux[0] = binopClass(aux[0])
+			if in.Kind == "BinOp" && len(aux) == 1 {
+				aux[0] = binopClass(aux[0])
+			}
+			if in.Kind == "UnOp" && len(aux) == 1 { // 0 = logical negation (!), 1 = any other unary operator
+				if token.Token(aux[0]) == token.NOT {
+					aux[0] = 0
+				} else {
+					aux[0] = 1
 				}
 			}
 			for _, p := range auxTypePositions(in.Kind, aux) {
